@@ -24,9 +24,9 @@ class JumpRelocation(Relocation):
     def calc(self, sym_value, reloc_value):
         assert sym_value % 4 == 0
         assert reloc_value % 4 == 0
-        offset = sym_value - reloc_value
-        # assert offset in range(-256, 254, 4), str(offset)
-        return offset // 4
+        offset = (sym_value - reloc_value) // 4
+        assert offset in range(-(1 << 25), 1 << 25), str(offset)
+        return offset
 
 
 @orbis32.register_relocation
